@@ -146,6 +146,7 @@ package keeper
 //@ vars (keeper.Keeper).PauseRequestContext: k=github.com/irismod/service/keeper.Keeper#0 ctx=github.com/cosmos/cosmos-sdk/types.Context#0 requestContextID=github.com/tendermint/tendermint/libs/bytes.HexBytes#0 consumer=github.com/cosmos/cosmos-sdk/types.AccAddress#0 requestContext=github.com/irismod/service/types.RequestContext#0 found=bool#0 err=error#0
 //@ preserves [C01,C02,C16,C11] pending_requests_stay_well_formed: actInv(raw)
 //@ props C09 C05
+//@ preserves [C16] no_orphan_request_or_response_record: recInv(raw)
 //@ preserves [C10] never_more_batches_than_the_largest_total: cadInv(raw, ghostMaxTot)
 //@ preserves [C11] no_event_in_the_past: futInv(raw, ctxHeight(ctx))
 //@ preserves [C12,C16,C08] open_batches_count_their_pending_requests: cntInv(raw)
@@ -160,6 +161,7 @@ package keeper
 //@ vars (keeper.Keeper).StartRequestContext: k=github.com/irismod/service/keeper.Keeper#0 ctx=github.com/cosmos/cosmos-sdk/types.Context#0 requestContextID=github.com/tendermint/tendermint/libs/bytes.HexBytes#0 consumer=github.com/cosmos/cosmos-sdk/types.AccAddress#0 requestContext=github.com/irismod/service/types.RequestContext#0 found=bool#0 err=error#0
 //@ preserves [C01,C02,C16,C11] pending_requests_stay_well_formed: actInv(raw)
 //@ props C09 C05 C10 C11 C16 C08 C04 C02 C01
+//@ preserves [C16] no_orphan_request_or_response_record: recInv(raw)
 //@ requires [C10] never_more_batches_than_the_largest_total: cadInv(raw, ghostMaxTot)
 //@ ensures [C10] never_more_batches_than_the_largest_total_kept: err == NoErr ==> (let c := ctxOf(old(raw), requestContextID) in
 //@      (hasExp(old(raw), requestContextID) || hasNew(old(raw), requestContextID) || (c.Repeated ? c.BatchCounter < effTotal(c) : c.BatchCounter == 0)) ==> cadInv(raw, ghostMaxTot))
@@ -181,6 +183,7 @@ package keeper
 //@ vars (keeper.Keeper).KillRequestContext: k=github.com/irismod/service/keeper.Keeper#0 ctx=github.com/cosmos/cosmos-sdk/types.Context#0 requestContextID=github.com/tendermint/tendermint/libs/bytes.HexBytes#0 consumer=github.com/cosmos/cosmos-sdk/types.AccAddress#0 requestContext=github.com/irismod/service/types.RequestContext#0 found=bool#0 err=error#0
 //@ preserves [C01,C02,C16,C11] pending_requests_stay_well_formed: actInv(raw)
 //@ props C09 C05
+//@ preserves [C16] no_orphan_request_or_response_record: recInv(raw)
 //@ preserves [C10] never_more_batches_than_the_largest_total: cadInv(raw, ghostMaxTot)
 //@ preserves [C11] no_event_in_the_past: futInv(raw, ctxHeight(ctx))
 //@ preserves [C12,C16,C08] open_batches_count_their_pending_requests: cntInv(raw)
@@ -195,6 +198,7 @@ package keeper
 //@ vars (keeper.Keeper).UpdateRequestContext: k=github.com/irismod/service/keeper.Keeper#0 ctx=github.com/cosmos/cosmos-sdk/types.Context#0 requestContextID=github.com/tendermint/tendermint/libs/bytes.HexBytes#0 providers=[]github.com/cosmos/cosmos-sdk/types.AccAddress#0 respThreshold=uint32#0 serviceFeeCap=github.com/cosmos/cosmos-sdk/types.Coins#0 timeout=int64#0 repeatedFreq=uint64#0 repeatedTotal=int64#1 consumer=github.com/cosmos/cosmos-sdk/types.AccAddress#0 requestContext=github.com/irismod/service/types.RequestContext#0 found=bool#0 err=error#0 err=error#1 err=error#2 maxRequestTimeout=int64#2
 //@ preserves [C01,C02,C16,C11] pending_requests_stay_well_formed: actInv(raw)
 //@ props C09 C05 C10
+//@ preserves [C16] no_orphan_request_or_response_record: recInv(raw)
 //@ requires [C10] never_more_batches_than_the_largest_total: cadInv(raw, ghostMaxTot)
 //@ ensures [C10] never_more_batches_than_the_largest_total_kept: err == NoErr ==> cadInv(raw, maxNext(ghostMaxTot, raw))
 //@ preserves [C11] no_event_in_the_past: futInv(raw, ctxHeight(ctx))
@@ -365,6 +369,7 @@ package keeper
 //@ func (Keeper).AddResponse
 //@ vars (keeper.Keeper).AddResponse: k=github.com/irismod/service/keeper.Keeper#0 ctx=github.com/cosmos/cosmos-sdk/types.Context#0 requestID=github.com/tendermint/tendermint/libs/bytes.HexBytes#0 provider=github.com/cosmos/cosmos-sdk/types.AccAddress#0 result=string#0 output=string#1 request=github.com/irismod/service/types.Request#0 response=github.com/irismod/service/types.Response#0 err=error#0 found=bool#0 err=error#1 err=error#2 requestContextID=github.com/tendermint/tendermint/libs/bytes.HexBytes#1 requestContext=github.com/irismod/service/types.RequestContext#0
 //@ props C02 C08 C05 C12 C04 C07 C20
+//@ preserves [C16] no_orphan_request_or_response_record: recInv(raw)
 //@ preserves [C10] never_more_batches_than_the_largest_total: cadInv(raw, ghostMaxTot)
 //@ preserves [C11] no_event_in_the_past: futInv(raw, ctxHeight(ctx))
 //@ preserves [C11] queues_stay_well_formed: schedInv(raw)
@@ -488,6 +493,7 @@ package keeper
 //@ func (Keeper).CreateRequestContext
 //@ vars (keeper.Keeper).CreateRequestContext: k=github.com/irismod/service/keeper.Keeper#0 ctx=github.com/cosmos/cosmos-sdk/types.Context#0 serviceName=string#0 providers=[]github.com/cosmos/cosmos-sdk/types.AccAddress#0 consumer=github.com/cosmos/cosmos-sdk/types.AccAddress#0 input=string#1 serviceFeeCap=github.com/cosmos/cosmos-sdk/types.Coins#0 timeout=int64#0 superMode=bool#0 repeated=bool#1 repeatedFrequency=uint64#0 repeatedTotal=int64#1 state=github.com/irismod/service/types.RequestContextState#0 responseThreshold=uint32#0 moduleName=string#2 err=error#0 err=error#1 err=error#2 found=bool#2 err=error#3 err=error#4 maxRequestTimeout=int64#2 batchCounter=uint64#1 batchRequestCount=uint32#1 batchResponseCount=uint32#2 batchResponseThreshold=uint32#3 batchState=github.com/irismod/service/types.RequestContextBatchState#0 requestContext=github.com/irismod/service/types.RequestContext#0 txHash=[]byte#0 msgIndex=int64#3 requestContextID=github.com/tendermint/tendermint/libs/bytes.HexBytes#0
 //@ props C10 C09 C18 C15 C11
+//@ preserves [C16] no_orphan_request_or_response_record: recInv(raw)
 //@ requires [C10] never_more_batches_than_the_largest_total: cadInv(raw, ghostMaxTot)
 //@ ensures [C10] never_more_batches_than_the_largest_total_kept: err == NoErr ==> cadInv(raw, maxNext(ghostMaxTot, raw))
 //@ preserves [C11] no_event_in_the_past: futInv(raw, ctxHeight(ctx))
@@ -739,6 +745,7 @@ package keeper
 //@ func (Keeper).RequestModuleService
 //@ vars (keeper.Keeper).RequestModuleService: k=github.com/irismod/service/keeper.Keeper#0 ctx=github.com/cosmos/cosmos-sdk/types.Context#0 moduleService=*github.com/irismod/service/types.ModuleService#0 reqContextID=github.com/tendermint/tendermint/libs/bytes.HexBytes#0 consumer=github.com/cosmos/cosmos-sdk/types.AccAddress#0 input=string#0 requestContext=github.com/irismod/service/types.RequestContext#0 found=bool#0 totalPrices=github.com/cosmos/cosmos-sdk/types.Coins#0 err=error#0 err=error#1 requestIDs=[]github.com/tendermint/tendermint/libs/bytes.HexBytes#0 result=string#1 output=string#2 request=github.com/irismod/service/types.Request#0
 //@ props C10 C01 C02
+//@ preserves [C16] no_orphan_request_or_response_record: recInv(raw)
 //@ modifies raw, bal, supply, cblog
 //@ preserves wf: WF(raw)
 //@ preserves [C03] deposits_in_custody: depInv(raw, bal)
